@@ -30,5 +30,5 @@ Definition file_lines (content : string) (start : nat) : list (nat * string) :=
   map (fun p => (fst p + 1 + start, snd p)) (filter (fun p => negb (blank (snd p))) (numbered content)).
 
 Record fline := mkfline { f_number : nat; f_text : string; f_parsed : result }.
-Definition parse_file (content : string) (start : nat) : list fline :=
-  map (fun p => mkfline (fst p) (snd p) (parse_line (snd p))) (file_lines content start).
+Definition parse_file (fx : fixes) (content : string) (start : nat) : list fline :=
+  map (fun p => mkfline (fst p) (snd p) (parse_line fx (snd p))) (file_lines content start).
